@@ -46,8 +46,10 @@ def eval_term(t, tup):
         return tup.get('name')
     if k == 'REG':
         return tup.get(t[1])
-    if k == 'IMM':
+    if k in ('IMM', 'IMMC'):
         return tup.get('imm')
+    if k == 'ISARITH':
+        return True          # enumerated operands are literals
     if k == 'mod':
         a, b = eval_term(t[1], tup), eval_term(t[2], tup)
         if a is None or b in (None, 0):
@@ -74,7 +76,7 @@ def mentions(f):
 def mentions_t(t):
     if t[0] == 'REG':
         return {t[1]}
-    if t[0] == 'IMM':
+    if t[0] in ('IMM', 'IMMC'):
         return {'imm'}
     if t[0] == 'mod':
         return mentions_t(t[1]) | mentions_t(t[2])
@@ -97,7 +99,7 @@ class Rule:
         lo, hi = None, None
         pts = set()
         for f in self.formulas:
-            if f[0] == 'cmp' and f[2] == ('IMM',) and f[3][0] == 'const' and isinstance(f[3][1], int):
+            if f[0] == 'cmp' and f[2][0] in ('IMM', 'IMMC') and f[3][0] == 'const' and isinstance(f[3][1], int):
                 c = f[3][1]
                 if f[1] == '>=':
                     lo = c if lo is None else max(lo, c)
@@ -294,3 +296,55 @@ def expand(mnemonic, ops):
     for role, src in mapping.items():
         fields[role] = src[1] if isinstance(src, tuple) else ops[src]
     return base, fields
+
+
+# -- rules that discard the immediate --------------------------------------------------------------------------------------------
+def terms_of(f, out=None):
+    """All terms occurring in a formula."""
+    out = [] if out is None else out
+    k = f[0]
+    if k == 'cmp':
+        for t in (f[2], f[3]):
+            out.append(t)
+            if t[0] == 'mod':
+                out.extend([t[1], t[2]])
+    elif k in ('and', 'or'):
+        for x in f[1]:
+            terms_of(x, out)
+    elif k == 'not':
+        terms_of(f[1], out)
+    return out
+
+
+def check_final_immediates(report, rel, rule):
+    """A rule whose compressed form has no immediate (c.jr / c.jalr / c.mv from addi / c.nop) is selected by testing the immediate
+    at a moment when labels still move (this very replacement moves them).  The dropped value is never looked at again, so the
+    test must be about a value that cannot change any more: the immediate must be known to be a plain arithmetic expression and
+    be evaluated without the label table.  Otherwise the %lo half of a far call / tail, or %lo(sym) of a lui/addi pair, that is 0
+    now and -2 after the shift is silently discarded."""
+    n = 0
+    for ru in rel.rules:
+        con = rel.constructions.get(ru.key)
+        if con is None or ru.name is None:
+            continue
+        cls, attrs = rel.item_fields(ru.name)
+        if cls is None or 'imm' not in attrs:
+            continue
+        keeps = any(IS.contains(v, ('attr', rel.pa.item, 'imm')) for v in con.fields.values() if isinstance(v, tuple))
+        if keeps:
+            continue
+        n += 1
+        terms = [t for f in ru.formulas for t in terms_of(f)]
+        imm_terms = [t for t in terms if t[0] in ('IMM', 'IMMC')]
+        guarded = any(t[0] == 'ISARITH' for t in terms)
+        ok = bool(imm_terms) and all(t[0] == 'IMMC' for t in imm_terms) and guarded
+        why = ('no predicate pins the immediate' if not imm_terms else
+               'the immediate is evaluated with the live label environment' if any(t[0] == 'IMM' for t in imm_terms) else
+               'nothing establishes that the immediate is a plain arithmetic expression (it may be %lo / %offset of a label)')
+        report.check(ok, rule, "rule '{}' ({} -> {} without immediate) is decided on a final, label-independent immediate".format(ru.key, ru.name, con.mnemonic or con.cls),
+                     lambda ru=ru, con=con, why=why: Finding(rule, 'transform_compressible', con.node,
+                                                             "rule '{}' replaces {} by {}, which has no immediate, but {}: an immediate that depends on a label (the %lo half of a far "
+                                                             'call / tail, %lo(sym) after lui) can satisfy the test now and change when later labels move - by this very replacement - '
+                                                             'so the dropped offset makes the transfer land beside its label'.format(ru.key, ru.name, con.mnemonic or con.cls, why),
+                                                             line=getattr(con.node, 'lineno', None)))
+    report.count('immediate-dropping rules', n)
